@@ -15,10 +15,12 @@ LEVEL_TEXT = ("TLC checks, for every extent of the bounded domain (0..4 per axis
               "clamped gets, indices of extents whose products exceed 2^31, 2^32 and approach 2^64 including seeded random ones) which the driver evaluates on the real "
               "headers under ASan/UBSan; histories of the state graph are replayed on a real ActualArray3D with live adaptor views, and seeded random long "
               "executions of the real code (arrays, views, index tables of larger random extents) are validated by TLC against the trace specifications")
-LEVEL_NOTE = ("bounded: tables for extents <= 4^3 (quick) / 5^3 (thorough), adaptors for every extent <= 3^3, state graph over 2x1x2 / 1x2x1 (/1x2x2) arrays with 2 values; "
-              "random parts: extents <= 9x7x6 and arrays <= 5x4x4; huge extents: fixed list + seeded random list, one-byte cells mapped lazily up to 2^33 cells; "
-              "not covered: shifts more negative than the extent, getValueRange of empty regions and Array3DRepeater are outside the statement and only recorded as notes; "
-              "trusted: TLC, the driver's table order (x fastest) and limb conversion, g++/libstdc++, sanitizers")
+LEVEL_NOTE = ("bounded: map laws for extents 0..4 per axis (thorough 0..6), for_each laws for every region of extents 0..3 (0..4); tables replayed for extents <= 4^3 (5^3) and "
+              "regions with bounds 0..3 (-1..4); adaptors for every extent <= 3^3 (every shift -ext..ext, clip box, 1..3 slices, every region's range) and compositions over 3x2x2 "
+              "(+ 2x3x1, 1x2x3, 2x2x3); state machine over 2x1x2 / 1x2x1 (/ 1x2x2) arrays with 2 values, histories of mutators up to K=4 (5); random parts: tables of extents "
+              "<= 9x7x6, arrays <= 5x4x4 with 200-step executions; huge extents: fixed list + seeded random list, one-byte cells mapped lazily up to 2^33 cells. "
+              "Outside the statement and only recorded as notes: shifts more negative than the extent, getValueRange of empty regions, numElements() of MultiSlice over slices "
+              "thicker than one plane, Array3DRepeater. Trusted: TLC, the driver's table order (x fastest) and limb conversion, g++/libstdc++, ASan/UBSan")
 TECHNIQUE = ("TLA+ functional specification with laws checked by TLC over the whole bounded domain + limb arithmetic for 64-bit indices; "
              "TLA+ ADT specification of ActualArray3D and its adaptors; TLC-generated cases and state-graph histories replayed on the real code; "
              "TLC trace validation of recorded random executions")
